@@ -6,6 +6,7 @@ set -u
 patch="$(readlink -f "$1")"; shift
 props="${@:-C01 C02 C03 C04 C05 C06 C07 C08 C09 C10 C11 C12 C13 C14 C15 C16 C17 C18 C19 C20}"
 export GOFLAGS=-mod=mod GOPROXY=off GOSUMDB=off GOTOOLCHAIN=local
+export VCGEN_WORKERS=${VCGEN_WORKERS:-3}
 scratch=$(mktemp -d /tmp/trypatch.XXXXXX)
 trap 'rm -rf "$scratch"' EXIT
 rsync -a --exclude .git "${VERIF_REPO_SRC:-/repo}"/ "$scratch"/
